@@ -88,7 +88,9 @@ def _mk_sampler(env, skind, sh, n, filt):
         return S.GridSampler(sh.dom.boundary, n_points=n, filter_fn=ff)
     if skind == "gauss":
         dim = sum(d for _, d in sh.space_vars)
-        return S.GaussianSampler(sh.dom, n_points=n, mean=env.tensor("gm", (dim,)), std=env.tensor("gs", ()))
+        std = env.tensor("gs", ())
+        env.assume(env.L.gt(SH.elems(env, std)[0], 0))
+        return S.GaussianSampler(sh.dom, n_points=n, mean=env.tensor("gm", (dim,)), std=std)
     if skind == "lhs":
         return S.LHSSampler(sh.dom, n_points=n)
     raise ValueError(skind)
@@ -138,16 +140,18 @@ def sampler_case(skind, name, mk, info, n, k, filt, static=False, second_k=None)
         if o["nrows"] == n * max(k, 1) and k:
             pv = [(nm, d) for nm, d in zip(o["names"], o["dims"]) if nm in o["prows"][0]]
             yield from _param_goals(o, L, n, k, pv)
-        if "len" in o and k == 0:
-            yield "len_equals_rows_of_parameter_free_call", o["len"] == o["nrows"]
+        if "len" in o:
+            # also right after a call WITH parameter rows: len() is the row count of a parameter-free call
+            yield "len_equals_rows_of_parameter_free_call", o["len"] == n
         if "nrows2" in o:
             yield "second_call_row_count", o["nrows2"] == n * max(o["k2"], 1)
             if o["k2"] == 0:
                 yield "len_equals_rows_of_parameter_free_call", o["len_after"] == o["nrows2"]
 
     return Case(cname, body, goals, family="sampler/%s/%s" % (skind, name),
-                params=dict(sampler=skind, shape=name, n=n, k=k, filter=filt, static=static), max_paths=40,
-                max_forks_per_site=3, check_obligations=False)
+                params=dict(sampler=skind, shape=name, n=n, k=k, filter=filt, static=static),
+                max_paths=160 if filt else 40, max_forks_per_site=10 if filt else 3, max_decisions=64,
+                check_obligations=False)
 
 
 class _Rec:
